@@ -13,6 +13,8 @@ pub struct PavexcVerdict {
     pub n_errors: usize,
     pub panicked: bool,
     pub timed_out: bool,
+    /// killed because the compiler process itself exceeded the CPU-time budget (see engine::cpu_limit_secs)
+    pub cpu_bound: bool,
     pub stderr: String,
     pub wall_ms: u128,
 }
@@ -24,6 +26,7 @@ impl PavexcVerdict {
             n_errors: r.n_errors(),
             panicked: r.panicked() || r.signal || !matches!(r.code, Some(0) | Some(1)),
             timed_out: r.timed_out,
+            cpu_bound: r.cpu_bound,
             stderr: strip_ansi(&r.stderr),
             wall_ms: r.wall.as_millis(),
         }
@@ -127,7 +130,7 @@ pub struct RoundOpts {
 
 pub fn infra(msg: String) -> RoundOutcome {
     RoundOutcome {
-        combined: PavexcVerdict { code: None, n_errors: 0, panicked: false, timed_out: false, stderr: String::new(), wall_ms: 0 },
+        combined: PavexcVerdict { code: None, n_errors: 0, panicked: false, timed_out: false, cpu_bound: false, stderr: String::new(), wall_ms: 0 },
         individual: vec![],
         in_sdk: vec![],
         sdk_build: None,
@@ -176,7 +179,7 @@ pub fn run_round(lane: &Lane, specs: &[AppSpec], opts: &RoundOpts, script: &dyn 
                         let bp = bp_path(lane, &format!("one{k}"));
                         let p = lane.persist("one", k as u64, &bp);
                         if !p.ok() {
-                            return PavexcVerdict { code: None, n_errors: 0, panicked: false, timed_out: false, stderr: format!("persist failed: {}", p.stderr), wall_ms: 0 };
+                            return PavexcVerdict { code: None, n_errors: 0, panicked: false, timed_out: false, cpu_bound: false, stderr: format!("persist failed: {}", p.stderr), wall_ms: 0 };
                         }
                         let out = format!("ind/sdk_{k}");
                         let r = lane.pavexc(&bp, &out, None, false, &[]);
@@ -312,7 +315,7 @@ pub fn verdict_k(lane: &Lane, k: usize, slot: usize, check: bool, env: &[(&str, 
     let bp = bp_path(lane, &format!("one{k}"));
     let p = lane.persist("one", k as u64, &bp);
     if !p.ok() {
-        return PavexcVerdict { code: None, n_errors: 0, panicked: false, timed_out: false, stderr: format!("persist failed: {}", p.stderr), wall_ms: 0 };
+        return PavexcVerdict { code: None, n_errors: 0, panicked: false, timed_out: false, cpu_bound: false, stderr: format!("persist failed: {}", p.stderr), wall_ms: 0 };
     }
     let r = lane.pavexc(&bp, &format!("ind/sdk_{slot}"), diagnostics, check, env);
     PavexcVerdict::from(&r)
